@@ -227,14 +227,17 @@ def templates(rng):
       return "update-once-in-cycle-through-connection", H, body, "reject"
     return "update-once-in-cycle", H, body, "reject"
   if t == 9:   # update_once that calls a @blocking method (wrapped into a greenlet before scheduling) inside the cycle -> rejected
-    k = rng.randrange(2, 5)          # ring of k+1 blocks: with k >= 2 some edge of the cycle lies between two unwrapped blocks
+    k = rng.randrange(1, 5)          # ring of k+1 blocks: with k >= 2 some edge of the cycle lies between two unwrapped blocks
     lines = [f"    s.a = InPort({w}); s.ch = Chan()"] + [f"    s.v{i} = Wire({w})" for i in range(k + 1)]
     if rng.random() < 0.5: lines.append("    s.g = CallerIfcFL(); s.g //= s.ch.get")
     call = "s.g()" if "s.g = " in lines[-1] else "s.ch.get()"
     lines += ["    @update_once", f"    def up0(): s.v0 @= s.v{k} | s.a | {call}"]
+    nwrapped = 1
     for i in range(1, k + 1):
-      lines += ["    @update", f"    def up{i}(): s.v{i} @= s.v{i - 1}"]
-    return "greenlet-update-once-in-cycle", H, "\n".join(lines), "reject"
+      # ... several (neighbouring) blocks of the ring may be wrapped: an edge of the cycle then lies between two greenlets
+      if rng.random() < 0.5: lines += ["    @update_once", f"    def up{i}(): s.v{i} @= s.v{i - 1} | {call}"]; nwrapped += 1
+      else: lines += ["    @update", f"    def up{i}(): s.v{i} @= s.v{i - 1}"]
+    return "greenlet-update-once-in-cycle" + ("-several-wrapped" if nwrapped > 1 else ""), H, "\n".join(lines), "reject"
   if t == 10:  # the cycle is carried by two fields of one struct whose names are prefixes of each other (v / v2, a / ab ...); an upstream
     # block makes the loop start at the block that writes the first field, so that one iteration changes the second field only
     f1, f2 = rng.choice([("v", "v2"), ("a", "ab"), ("x", "x_"), ("d", "d0")])
